@@ -3,7 +3,7 @@ import json
 import vf
 
 OPS = ["load good kid=a", "load good kid=a (again)", "load good kid=b", "load bad item", "load mixed set [good c, bad, good a]",
-       "load non-JSON", "free(0)", "free(count/2)", "free(last)", "free(count)", "free_bad", "free_all", "error_clear", "free(count+5)", "load 300-key set"]
+       "load non-JSON", "free(0)", "free(count/2)", "free(last)", "free(count)", "free_bad", "free_all", "error_clear", "free(count+5)", "load 300-key set", "load set mixing good and flagged keys (33..300 flagged)"]
 KID = {0: "a", 1: "b", 2: "c"}
 
 
@@ -42,12 +42,19 @@ def judge(path):
             cnt("op." + OPS[op])
             n = len(items)
             exp_ret = 0
-            if op <= 4 or op == 14:
+            if op <= 4 or op in (14, 15):
                 for part in loaded.split(","):
                     f = part.split(":")
                     if f[0] == "x":
                         last_bad = int(f[1])
-                    if f[0] == "bulk":
+                    if f[0] == "mix":
+                        st, c_, pat = int(f[1]), int(f[2]), int(f[3])
+                        for u in range(st, st + c_):
+                            if (u - st) % pat == 0:
+                                items.append(dict(uid=u, kid="bad-%d" % u, bad=1)); last_bad = u
+                            else:
+                                items.append(dict(uid=u, kid=None, bad=0))
+                    elif f[0] == "bulk":
                         items.extend(dict(uid=u, kid=None, bad=0) for u in range(int(f[1]), int(f[1]) + int(f[2])))
                     elif f[0] == "g":
                         items.append(dict(uid=int(f[2]), kid=f[1], bad=0))
@@ -118,7 +125,7 @@ def run(tier, seed, replay):
     rep.crash_violations(crashes)
     outs2, crashes2 = vf.run_shards(b, ["--mode", "rand", "--n", 40000 if tier == "thorough" else 1500, "--seed", seed], vf.NCPU, rd, tag="r", timeout=3000)
     rep.crash_violations(crashes2, prefix="rand:")
-    outs3, crashes3 = vf.run_shards(b, ["--mode", "big", "--n", 160 if tier == "thorough" else 16, "--seed", seed], vf.NCPU, rd, tag="b", timeout=3000)
+    outs3, crashes3 = vf.run_shards(b, ["--mode", "big", "--n", 160 if tier == "thorough" else 32, "--seed", seed], vf.NCPU, rd, tag="b", timeout=3000)
     rep.crash_violations(crashes3, prefix="big:")
     for r in vf.pmap(judge, [(p,) for p in outs + outs2 + outs3]):
         rep.evaluations += r["n"]
